@@ -41,7 +41,7 @@ class CoreHarness(Harness):
                  read_time=4, write_time=4, cl=2, cwl=None, RL=2, WL=0, K=2, window=0,
                  watch=None, banks=(0, 1), rows=(0, 1), cols=(0,), wes=None, queue_check=True, timing_mon=False,
                  refresh_mon=False, drivers=None, tzqcs=None, zqcs_period=None, rdphase=None, wrphase=None,
-                 req=None, settle=14, wr_only=False, zq_mon=False, rd_only=False)
+                 req=None, settle=14, wr_only=False, zq_mon=False, rd_only=False, port_width=None, chunks=None, last_always=True)
         d.update(cfg); self.cfg = d
         for k, v in d.items(): setattr(self, k, v)
         nph = self.nphases
@@ -67,7 +67,8 @@ class CoreHarness(Harness):
                                      databits=self.databits, nports=self.nports, cmd_buffer_depth=self.depth, buffered=self.buffered,
                                      auto_precharge=self.ap, postponing=self.postponing, timing=timing, read_time=self.read_time,
                                      write_time=self.write_time, cl=self.cl, cwl=self.cwl, rdphase=rdphase, wrphase=wrphase,
-                                     read_latency=self.RL, write_latency=self.WL, nranks=self.nranks, with_refresh=self.refresh, **zq)
+                                     read_latency=self.RL, write_latency=self.WL, nranks=self.nranks, with_refresh=self.refresh,
+                                     port_kwargs=(dict(data_width=self.port_width) if self.port_width else None), **zq)
         self.T = core.timing
         self.trefi = self.T.tREFI
         ports = self.ports = core.ports
@@ -92,6 +93,7 @@ class CoreHarness(Harness):
         self.i_valid = [ii[p.cmd.valid] for p in ports]; self.i_we = [ii[p.cmd.we] for p in ports]; self.i_addr = [ii[p.cmd.addr] for p in ports]
         self.i_wvalid = [ii.get(p.wdata.valid) for p in ports]; self.i_wdata = [ii[p.wdata.data] for p in ports]; self.i_wwe = [ii[p.wdata.we] for p in ports]
         self.i_rready = [ii.get(p.rdata.ready) for p in ports]
+        self.i_last = [ii.get(p.cmd.last) for p in ports]; self.i_flush = [ii.get(p.flush) for p in ports]
         self.i_rddata = [ii[ph.rddata] for ph in phases]
         self.i_rdvalid = [ii.get(ph.rddata_valid) for ph in phases]
         self.o_ready = [oi[p.cmd.ready] for p in ports]; self.o_wready = [oi[p.wdata.ready] for p in ports]
@@ -111,14 +113,35 @@ class CoreHarness(Harness):
         self.cshift = self.colbits - self.align
         self.csmask = (1 << self.nranks) - 1
         self.locs = [(b, r, col) for b in self.banks for r in self.rows for col in self.cols]
-        self.addrs = [self.addr_of(*l) for l in self.locs]
-        self.loc_of = dict(zip(self.addrs, self.locs))
-        if self.watch is not None:
-            self.waddr = self.addrs[self.watch[0]]; self.wlane = self.watch[1]; self.wloc = self.locs[self.watch[0]]
+        core_addrs = [self.addr_of(*l) for l in self.locs]
+        core_dw = core.controller.interface.data_width
+        self.core_lanes = core_dw // 8
+        # user port narrower / wider than the controller (get_port(data_width=...)): the alphabet, the watched byte and the scoreboard live
+        # at the port's width, the DRAM reference at the controller's width; the two are related by the byte-address view of C07
+        if self.dw < core_dw:
+            R = core_dw // self.dw
+            chunks = tuple(self.chunks) if self.chunks is not None else tuple(sorted({0, R - 1}))
+            self.addrs = [A * R + c for A in core_addrs for c in chunks]
+            self.loc_of = {A * R + c: l for A, l in zip(core_addrs, self.locs) for c in range(R)}
+            def to_port(A, dl): return A * R + dl // self.nlanes, dl % self.nlanes
+        elif self.dw > core_dw:
+            R = self.dw // core_dw
+            self.addrs = list(dict.fromkeys(A // R for A in core_addrs))
+            self.loc_of = {}
+            for A, l in zip(core_addrs, self.locs): self.loc_of.setdefault(A // R, l)
+            def to_port(A, dl): return A // R, (A % R) * self.core_lanes + dl
         else:
-            self.waddr = None; self.wlane = 0; self.wloc = None
+            self.addrs = core_addrs
+            self.loc_of = dict(zip(self.addrs, self.locs))
+            def to_port(A, dl): return A, dl
+        if self.watch is not None:
+            self.wloc = self.locs[self.watch[0]]; self.wlane = self.watch[1]             # DRAM side: (bank,row,col) and byte lane of the controller word
+            self.waddr, self.wlane_port = to_port(core_addrs[self.watch[0]], self.wlane)     # port side
+            if self.waddr not in self.addrs: self.addrs.append(self.waddr)
+        else:
+            self.waddr = None; self.wlane = 0; self.wloc = None; self.wlane_port = 0
         self.full_we = (1 << self.nlanes) - 1
-        wes = self.wes if self.wes is not None else ([self.full_we, 1 << self.wlane, self.full_we & ~(1 << self.wlane)] if self.nlanes > 1 else [1])
+        wes = self.wes if self.wes is not None else ([self.full_we, 1 << self.wlane_port, self.full_we & ~(1 << self.wlane_port)] if self.nlanes > 1 else [1])
         alpha = [None] + ([] if self.wr_only else [("R", ad) for ad in self.addrs])
         for ad in ([] if self.rd_only else self.addrs):
             if self.watch is not None and ad == self.waddr:
@@ -159,6 +182,10 @@ class CoreHarness(Harness):
 
     def addr_of(self, bank, row, col):
         return (col >> self.align) & ((1 << self.cshift) - 1) | (bank << self.cshift) | (row << (self.cshift + self.bank_bits)) | ((col >> self.align) >> self.cshift) << (self.cshift + self.bank_bits + self.rowbits)
+
+    def wbyte(self, tag):
+        """value of the watched byte for a tag (as the master writes it on its lane)"""
+        return lane_byte(self.wlane_port, tag)
 
     def word(self, tag):
         w = self.word_cache.get(tag)
@@ -273,6 +300,8 @@ class CoreHarness(Harness):
             if cmd is not None:
                 I[self.i_valid[k]] = 1; I[self.i_addr[k]] = cmd[1]
                 if cmd[0] == "W": I[self.i_we[k]] = 1
+                if self.i_last[k] is not None and self.last_always: I[self.i_last[k]] = 1
+            elif self.i_flush[k] is not None: I[self.i_flush[k]] = 1
             if pend is None and ch[k] is not None and ch[k][0] == "W":
                 wq = wq + ((ch[k][2], ch[k][3]),)       # data offered together with the command
             if wq:
@@ -364,7 +393,7 @@ class CoreHarness(Harness):
                     watched = loc == self.wloc
                     if watched and any(w for _, w in wpend):
                         raise Violation("dram.read_overtakes_write_data", "RD issued to the watched location while its write data has not reached the DRAM yet")
-                    d = (lane_byte(self.wlane, dval) << (8 * self.wlane)) if watched else 0
+                    d = (self.wbyte(dval) << (8 * self.wlane)) if watched else 0
                     rpipe = rpipe + ((self.RL, d),)
                     cov["RD"] = cov.get("RD", 0) + 1
                 if a10:
@@ -393,10 +422,10 @@ class CoreHarness(Harness):
                             data |= O[self.o_wrdata[p]] << (self.dfi_dw * p); mask |= O[self.o_wrmask[p]] << ((self.dfi_dw // 8) * p)
                         if not (mask >> self.wlane) & 1:
                             bt = (data >> (8 * self.wlane)) & 0xff
-                            v = [x for x in (0, 1, OTHER) if lane_byte(self.wlane, x) == bt]
+                            v = [x for x in (0, 1, OTHER) if self.wbyte(x) == bt]
                             if not v: raise Violation("data.garbage_to_dram", "DRAM received byte %02x for the watched lane (no master offered it there)" % bt)
                             dval = v[0]
-                        if wfl > 0: wfl -= 1
+                            if wfl > 0: wfl -= 1
                 else:
                     nw.append((due - 1, watched))
             wpend = tuple(nw)
@@ -431,10 +460,8 @@ class CoreHarness(Harness):
                     acc = True
                     ad = cmd[1]
                     if cmd[0] == "W":
-                        if ad == self.waddr:
-                            if (cmd[3] >> self.wlane) & 1:
-                                refv = cmd[2]
-                            wfl += 1
+                        if ad == self.waddr and (cmd[3] >> self.wlane_port) & 1:
+                            refv = cmd[2]; wfl += 1          # one enabled write to the watched byte is now in flight
                     else:
                         rq = rq + ((refv if ad == self.waddr else -1),)
                     if reqq is not None:
@@ -447,15 +474,19 @@ class CoreHarness(Harness):
             elif cool: cool -= 1
             srv = False
             if O[self.o_wready[k]]:
-                if not wq: raise Violation("port.wdata_ready_without_data", "wdata.ready on port %d with no write data outstanding" % k, port=k)
-                wq = wq[1:]; srv = True
+                if wq:
+                    wq = wq[1:]; srv = True
+                elif not self.port_width:
+                    # a native crossbar port strobes wdata.ready exactly once per accepted write; a width-converted port is an ordinary
+                    # stream (ready may be high while nothing is offered)
+                    raise Violation("port.wdata_ready_without_data", "wdata.ready on port %d with no write data outstanding" % k, port=k)
             if O[self.o_rvalid[k]]:
                 if not rq: raise Violation("port.rdata_without_read", "rdata.valid on port %d without an outstanding read" % k, port=k)
                 exp = rq[0]; rq = rq[1:]; srv = True
                 if exp != -1:
-                    got = (O[self.o_rdata[k]] >> (8 * self.wlane)) & 0xff
-                    if got != lane_byte(self.wlane, exp):
-                        self.report("data.read_mismatch", "port %d read byte %02x, expected %02x (last write accepted before this read)" % (k, got, lane_byte(self.wlane, exp)), port=k)
+                    got = (O[self.o_rdata[k]] >> (8 * self.wlane_port)) & 0xff
+                    if got != self.wbyte(exp):
+                        self.report("data.read_mismatch", "port %d read byte %02x, expected %02x (last write accepted before this read)" % (k, got, self.wbyte(exp)), port=k)
                     cov["rd_compared"] = cov.get("rd_compared", 0) + 1
             offered = pend is not None or ch[k] is not None
             # accepted commands not yet served at the start of this cycle
